@@ -283,6 +283,30 @@ def oracle_multiplex(case, ctx):
     discs = []
     for a, b in zip(got, exp):
         discs += same(a, b, "multiplex", desc)
+    # "exactly like its selected member" includes the optional outputs: prediction intervals at
+    # the requested coverage (or the member's refusal to give any)
+    if not discs:
+        fm, fs = pools.build_forecaster(spec), pools.build_forecaster(sel)
+        fm.fit(y0.copy(), None, fh_obj(case, y0.index[-1]))
+        fs.fit(y0.copy(), None, fh_obj(case, y0.index[-1]))
+        for alpha in (0.05, 0.2, 0.5):
+            a = sut(lambda: fm.predict(None, None, True, alpha))
+            b = sut(lambda: fs.predict(None, None, True, alpha))
+            if isinstance(b, Raised):
+                if not isinstance(a, Raised):
+                    discs.append(D("composite_succeeds_where_parts_fail:multiplex_pred_int", "%s alpha=%s: member raised %r" % (desc, alpha, b)))
+                continue
+            ctx.label("prediction_intervals")
+            if isinstance(a, Raised):
+                discs.append(D("composite_raised:multiplex_pred_int:%s@%s" % (a.type, a.where), "%s alpha=%s: %s" % (desc, alpha, a.msg)))
+                continue
+            ok = (isinstance(a, tuple) and isinstance(b, tuple) and len(a) == len(b) == 2 and not same(a[0], b[0], "multiplex_pred_int", desc)
+                  and np.asarray(a[1], dtype=float).shape == np.asarray(b[1], dtype=float).shape
+                  and np.allclose(np.asarray(a[1], dtype=float), np.asarray(b[1], dtype=float), rtol=1e-9, atol=1e-9, equal_nan=True))
+            if not ok:
+                discs.append(D("values_differ:multiplex_pred_int", "%s alpha=%s: composite %s member %s"
+                               % (desc, alpha, np.asarray(a[1] if isinstance(a, tuple) else a, dtype=float).ravel()[:4].tolist(),
+                                  np.asarray(b[1], dtype=float).ravel()[:4].tolist())))
     # re-selection on the SAME instance: set_params(selected_forecaster=...) then fit again
     if not discs and len(spec["members"]) > 1:
         other = (spec["selected"] + 1) % len(spec["members"])
